@@ -352,6 +352,7 @@ type side struct {
 	root    *s3c.Client
 	uploads map[int]*upl // by key index
 	ids     []string     // every upload id seen, for placeholders
+	vers    map[int][]string // by key index: the version ids (versions and delete markers) this side has announced, in order
 }
 
 var users = []s3c.Creds{{Access: "c18alice", Secret: "alicesecret0123456789"}, {Access: "c18carol", Secret: "carolsecret0123456789"}}
@@ -388,6 +389,20 @@ func step(s *side, bkt string, o op) ([]*s3c.Resp, error) {
 		return one(cl.Call("PUT", path, nil, withChecksums(metas[o.Meta%len(metas)], data), data))
 	case "get":
 		return one(cl.Call("GET", path, nil, nil, nil))
+	case "getver", "headver", "delver":
+		// one of the versions (or delete markers) of the key, by the id this side announced for it: the n-th on either side
+		vs := s.vers[o.Key%len(keyNames)]
+		if len(vs) == 0 {
+			return nil, nil
+		}
+		q := s3c.Q("versionId", vs[o.Meta%len(vs)])
+		switch o.Kind {
+		case "headver":
+			return one(cl.Call("HEAD", path, q, nil, nil))
+		case "delver":
+			return one(cl.Call("DELETE", path, q, nil, nil))
+		}
+		return one(cl.Call("GET", path, q, nil, nil))
 	case "getnull":
 		// the version a key has without (or from before) versioning
 		return one(cl.Call("GET", path, s3c.Q("versionId", "null"), nil, nil))
@@ -695,7 +710,8 @@ func execA(c caseA) (st stats, err error) {
 	bkt := fmt.Sprintf("px%d-%d", os.Getpid(), caseNo)
 	switch c.NameForm {
 	case "dotted":
-		bkt = fmt.Sprintf("px%d.%d.d", os.Getpid(), caseNo)
+		// (every label three characters or longer: a client library may then take the name for a host name)
+		bkt = fmt.Sprintf("px%d.n%03d.dot", os.Getpid(), caseNo)
 	case "express":
 		bkt += "--x-s3"
 	case "olap":
@@ -746,6 +762,19 @@ func execA(c caseA) (st stats, err error) {
 			raw[i] = rs
 			for _, r := range rs {
 				ans[i] = append(ans[i], norm(r, s.ids))
+				if v := r.Header.Get("x-amz-version-id"); v != "" && v != "null" && !strings.HasSuffix(o.Kind, "ver") {
+					if s.vers == nil {
+						s.vers = map[int][]string{}
+					}
+					k := o.Key % len(keyNames)
+					seen := false
+					for _, x := range s.vers[k] {
+						seen = seen || x == v
+					}
+					if !seen {
+						s.vers[k] = append(s.vers[k], v)
+					}
+				}
 			}
 		}
 		differ := func() bool {
@@ -816,6 +845,9 @@ func execA(c caseA) (st stats, err error) {
 				collect[fmt.Sprintf("%s tls=%v nochk=%v: %v | %v", o.Kind, c.TLS, c.NoChecksum, ans[0], ans[1])]++
 				return nil
 			}
+			if os.Getenv("VERIF_DEBUG") != "" {
+				fmt.Fprintf(os.Stderr, "PROXY OUTPUT (tail): %s\n", tail(p.proxy.Output(), 3000))
+			}
 			return fmt.Errorf("%s: the endpoint answers %v, the same request through the proxy answers %v", where, ans[0], ans[1])
 		}
 		return nil
@@ -879,7 +911,7 @@ var strict bool // replay of an open finding: no narrowing
 
 var singleKinds = []string{"put", "put", "put", "put", "get", "get", "getchk", "head", "headchk", "headbucket", "range", "getif", "attrs", "copy", "copy", "delete", "delobjs",
 	"tagput", "tagget", "tagdel", "list", "list", "list1", "listbuckets", "policyput", "policyget", "policydel", "ownput", "ownget", "aclput", "aclget",
-	"verget", "verput", "listversions", "getnull", "headnull", "delnull", "versuspend", "verput", "missingget", "missingbucket", "mkbucket", "mpulist", "mpulistparts", "mpucomplete", "mpuabort", "mpupart", "btagput", "btagget", "btagdel", "mpuseq", "mpuseq", "mpuseq", "restart"}
+	"verget", "verput", "listversions", "getnull", "headnull", "delnull", "getver", "getver", "headver", "headver", "delver", "versuspend", "verput", "missingget", "missingbucket", "mkbucket", "mpulist", "mpulistparts", "mpucomplete", "mpuabort", "mpupart", "btagput", "btagget", "btagdel", "mpuseq", "mpuseq", "mpuseq", "restart"}
 
 func opsGen(thorough bool) *rapid.Generator[[]op] {
 	return rapid.Custom(func(t *rapid.T) []op {
